@@ -7,41 +7,41 @@ SWEEP_NOTE = ("trusted: the reference model in mc/src/refmatch.rs (ES2025 22.2.2
               "haystack lengths and alphabets that evidence/<id>.json lists per profile")
 checks = {
  "C01": ("model_checking", "bounded-exhaustive enumeration of (pattern AST, flags, haystack, start) against an ES2025 reference matcher",
-         "Every pattern AST of nineteen focused profiles (plus every token string the reference parser accepts) up to a size bound x every flag set of the profile x every haystack up to a length bound x every start offset is run through the real compiler and the public find_from entry point of the backtracking executor and compared (range and every capture) with a clause-by-clause transcription of the ECMAScript pattern semantics. Exhaustive within the stated bounds; says nothing beyond them.", "4 C01"),
+         "Every pattern AST of nineteen focused profiles (plus every token string the reference parser accepts) up to a size bound x every flag set of the profile x every haystack up to a length bound x every start offset is run through the real compiler and the public find_from entry point of the backtracking executor and compared (range and every capture) with a clause-by-clause transcription of the ECMAScript pattern semantics; every pattern is also compiled through the string entry points (with_flags(&str,&str), new, FromStr), which must build the same program. Exhaustive within the stated bounds; says nothing beyond them.", "4 C01"),
  "C02": ("model_checking", "bounded-exhaustive differential exploration: backtracking executor vs PikeVM on the same program",
          "Same enumerated space as C01; the whole match sequence of the backtracking executor is compared with the PikeVM executor (which clones state at every split and so has no undo log), in UTF-8 mode and, on ASCII haystacks, in ASCII mode.", "4 C02"),
  "C03": ("model_checking", "bounded-exhaustive differential exploration: optimised vs no_opt pipeline",
          "Every enumerated pattern is compiled with and without the IR optimiser; both must compile, and the match sequences (with captures) must be equal on every haystack and start, under both executors.", "4 C03"),
  "C04": ("model_checking", "bounded-exhaustive differential exploration: program with vs without its start predicate",
-         "Every enumerated pattern is compiled once normally and once with StartPredicate::Arbitrary substituted; match sequences must be equal on every haystack and every start offset. Evidence reports which predicate kinds were reached and how often the predicate skipped work.", "4 C04"),
+         "Every enumerated pattern is compiled once normally and once with StartPredicate::Arbitrary substituted; match sequences must be equal on every haystack and every start offset; plus 64k classes of one or two items over the points where the UTF-8 lead byte changes. Evidence reports which predicate kinds were reached and how often the predicate skipped work.", "4 C04"),
  "C05": ("model_checking", "bounded-exhaustive exploration with a step counter (fuel) as termination monitor",
          "Every pattern of the nested-quantifier profiles x every haystack x both executors x opt/no_opt runs under a step counter. Where K=64 x (the reference matcher's own step count + |haystack| + |pattern| + 16) is below the fuel cap, fuel is set to that bound and exhausting it is the violation (the property's own K x reference clause); where the reference itself is too expensive the case is counted as undecided, never as a verdict. A backtrack store not bounded by (groups + 4) x the steps taken is a violation too.", "4 C05"),
  "C09": ("model_checking", "bounded-exhaustive exploration of iterator call histories against a lastIndex unfold model",
-         "For every enumerated (pattern, haystack, start) the iterator is driven through its whole call history (next() until None plus three more calls) with the invariants checked after every call, and its sequence compared with the unfold of first-match-from-cursor on fresh iterators and with the reference matcher's matchAll; all four executor/input modes.", "4 C09"),
+         "For every enumerated (pattern, haystack, start) the iterator is driven through its whole call history (next() until None plus three more calls) with the invariants checked after every call (haystacks of length 2-3 also doubled, so that a second match repeats the first), and its sequence compared with the unfold of first-match-from-cursor on fresh iterators and with the reference matcher's matchAll; all four executor/input modes.", "4 C09"),
  "C13": ("model_checking", "bounded-exhaustive differential exploration: ASCII vs UTF-8 entry points on ASCII haystacks",
-         "Every enumerated pattern (including ones mentioning non-ASCII characters and their ASCII fold partners) x every ASCII haystack x every start up to len+1: the public find_from_ascii must equal find_from (and the PikeVM pair likewise); plus 39 patterns over every ASCII string of length <= 2.", "4 C13"),
+         "Every enumerated pattern (including ones mentioning non-ASCII characters and their ASCII fold partners) x every ASCII haystack x every start up to len+1: the public find_from_ascii must equal find_from (and the PikeVM pair likewise), for the optimised and the no_opt program; plus 39 patterns over every ASCII string of length <= 2.", "4 C13"),
 }
 checks.update({
  "C16": ("model_checking", "bounded-exhaustive enumeration of patterns with named / duplicate-named groups; accessor identities checked on every match",
-         "Every AST of the named-group profile (named, unnamed, duplicate-named groups in alternatives, lookbehind, quantifiers) plus the look, core and fail (never-matching atoms next to groups in loops and assertions) profiles and a duplicate-name family x haystacks x every match of find_iter: captures equal the reference matcher's (left-paren order, last participation), and group/groups/named_group/named_groups agree with captures and with each other, names in source order, participating duplicate reported.", "4 C16"),
+         "Every AST of the named-group profile (named, unnamed, duplicate-named groups in alternatives, lookbehind, quantifiers) plus the look, core and fail (never-matching atoms next to groups in loops and assertions) profiles and a duplicate-name family x haystacks x every match of find_iter: captures equal the reference matcher's (left-paren order, last participation), and group/groups/named_group/named_groups agree with captures and with each other, names in source order, participating duplicate reported; checked on the matches of the default executor and of the PikeVM.", "4 C16"),
  "C17": ("model_checking", "exhaustive enumeration of replacement templates x a menu of match sequences against a splice-and-expand model",
-         "All templates over a 10-character alphabet up to length 5 (6 thorough), all sequences of <= 4 (5) whole-reference tokens, and $ followed by every digit run of length <= 7 (9) over {0 1 2 6 9}, x 24 (pattern, haystack) pairs covering no/one/adjacent/empty matches, multibyte boundaries, non-participating, named and duplicate-named groups: replace and replace_all must equal the ten-line model applied to find_iter's sequence; closure variants with identity and constant closures.", "4 C17"),
+         "All templates over a 10-character alphabet up to length 5 (6 thorough), all sequences of <= 4 (5) whole-reference tokens, and $ followed by every digit run of length <= 7 (9) over {0 1 2 6 9}, x 24 (pattern, haystack) pairs covering no/one/adjacent/empty matches, multibyte boundaries, non-participating, named and duplicate-named groups: replace and replace_all must equal the ten-line model applied to the match sequence of the reference parser + reference matcher (nothing read back from the subject); closure variants with identity and constant closures and a closure that renders everything it can read from its Match; every call under fuel.", "4 C17"),
  "C18": ("model_checking", "exhaustive enumeration of strings s, flag sets and derived haystacks against substring search",
          "All strings over a 29-character alphabet (every syntax character, class punctuators, case pairs and letters with three- and four-member case classes, multibyte, newline) up to length 3 (4 thorough) x all 24 flag sets x haystacks derived from s (occurrences, near misses, every member of each character's case class): escape(s) compiles, only inserts backslashes, and its matches are exactly the (case-insensitive under i) occurrences of s.", "4 C18"),
 })
 checks.update({
  "C10": ("model_checking", "complete enumeration of the code space (0..=0x10FFFF x both modes) against an independent Unicode 17 oracle, at hook level and through the public API",
-         "Exhaustive, not bounded, at hook level: for every code point and both modes the partition induced by Canonicalize, the compile-time literal expansion and the class closure equal the oracle derived from ICU 78.2. Through the public API /c/, /[c]/, /[^c]/, backreference, \\w \\W [\\w] \\b under i, iu, iv for every candidate code point (quick) and /c/ for every scalar over the all-scalars haystack (thorough).", "4 C10"),
+         "Exhaustive, not bounded, at hook level: for every code point and both modes the partition induced by Canonicalize, the compile-time literal expansion and the class closure equal the oracle derived from ICU 78.2. Through the public API /c/, /[c]/, /[^c]/ (with the program's start predicate and with it removed), backreference, \\w \\W [\\w], and every \\b / \\B position with the character on either side (both executors), under i, iu, iv for every candidate code point (quick) and /c/ for every scalar over the all-scalars haystack (thorough).", "4 C10"),
  "C11": ("model_checking", "complete enumeration: every candidate property expression x {u,v} x {\\p,\\P} for acceptance, every accepted expression over all scalar values for membership, a judged universe of 73k strings for properties of strings",
-         "Acceptance of 42k candidate expressions equals the ES tables as implemented by V8; each of the 1,714 accepted expressions is matched over a haystack holding every scalar value and must denote exactly the ICU 78.2 (Unicode 17) set, \\P its complement; every accepted expression is also used with both polarities in one pattern (5 templates x 6 member / non-member haystack shapes); properties of strings are compared by membership over a universe of 73,056 judged strings, and every member string must be the whole first match of the unanchored bare, in-class and lookbehind forms (longest first).", "4 C11"),
+         "Acceptance of 42k candidate expressions equals the ES tables as implemented by V8; each of the 1,714 accepted expressions is matched over a haystack holding every scalar value and must denote exactly the ICU 78.2 (Unicode 17) set, \\P its complement, with the program's start predicate and with it removed; every accepted expression is also used with both polarities in one pattern (5 templates x 6 member / non-member haystack shapes); properties of strings are compared by membership over a universe of 73,056 judged strings, and every member string must be the whole first match of the unanchored bare, in-class and lookbehind forms (longest first).", "4 C11"),
 })
 checks.update({
  "C07": ("exploration", "exhaustive enumeration of all short token / raw code point strings in-process, plus a finite family of size-parameterised shapes each in a resource-limited child process",
-         "Every string over a 34-token alphabet up to length 4 (5 thorough) and every raw code point string (surrogates, NUL, U+10FFFF) up to length 5 (6) x 7 flag sets must compile to Ok or Err under catch_unwind with a 10 s watchdog; likewise every prefix / suffix of every C08 seed pattern with 15 cut-off construct openings, and every code point of interest (all with a case partner, encoding-length boundary neighbours, 0..=U+0100; thorough: all 1,114,112) substituted into 20 templates x {optimised, no_opt}; 40 adversarial shapes x sizes up to 65536 (10^6 thorough) x {\"\",u,v} run in child processes (8 MiB / 2 MiB stacks): a stack-exhaustion abort, a panic or a timeout on a small input is a violation; runs cut by the harness's own memory / wall caps are reported as caps, not verdicts.", "4 C07"),
+         "Every string over a 34-token alphabet up to length 4 (5 thorough) and every raw code point string (surrogates, NUL, U+10FFFF) up to length 5 (6) x 7 flag sets must compile to Ok or Err under catch_unwind with a 10 s watchdog; likewise every prefix / suffix of every C08 seed pattern with 15 cut-off construct openings, and every code point of interest (all with a case partner, encoding-length boundary neighbours, 0..=U+0100; thorough: all 1,114,112) substituted into 20 templates x {optimised, no_opt}, and every run over three digits up to length 10 in 18 numeric contexts; 40 adversarial shapes x sizes up to 65536 (10^6 thorough) x {\"\",u,v} run in child processes (8 MiB / 2 MiB stacks): a stack-exhaustion abort, a panic or a timeout on a small input is a violation; an allocation failure under the 6 GiB cap is a violation for patterns of at most 2^20 code points; runs cut by the harness's caps beyond that envelope are reported as caps, not verdicts.", "4 C07"),
 })
 checks.update({
  "C08": ("model_checking", "exhaustive enumeration of all token strings up to a length bound x three grammar modes, plus all single-token edits of printed patterns, against a reference parser for the ES2025 grammar",
-         "Every string over a 34-token alphabet up to length 4 (5 thorough) under legacy / u / v, and every single-token edit (delete, replace, insert) of ~20k seed patterns, plus every string over the focused alphabet {[ ] ( ) a \\ 1} up to length 8 (9), size-parameterised shapes below the documented limits, and every sequence of <= 5 (6) words from a 16-word property-expression vocabulary as the body of \\p{..} (bare, in a class, unterminated), must be accepted by with_flags exactly when the reference parser (ES2025 22.2.1 + Annex B.1.2 + early errors) accepts it - both directions. The reference parser agrees with V8 11.3 on all 4.1 million (token string <= 4, mode) pairs.", "4 C08"),
+         "Every string over a 34-token alphabet up to length 4 (5 thorough) under legacy / u / v, and every single-token edit (delete, replace, insert) of ~20k seed patterns, plus every string over the focused alphabet {[ ] ( ) a \\ 1} up to length 8 (9), size-parameterised shapes below the documented limits, and every sequence of <= 5 (6) words from a 16-word property-expression vocabulary as the body of \\p{..} (bare, in a class, unterminated), and every name in the subject's own property tables in 11 templates, must be accepted by with_flags exactly when the reference parser (ES2025 22.2.1 + Annex B.1.2 + early errors) accepts it - both directions. The reference parser agrees with V8 11.3 on all 4.1 million (token string <= 4, mode) pairs.", "4 C08"),
  "C12": ("model_checking", "bounded-exhaustive enumeration of class expressions (operator nesting depth, operand menu) and of every spelling over the class syntax alphabet, against the ES2025 set semantics",
          "Class expressions built from 24 operand kinds (incl. strings spelt in the other case and multi-interval operands) with union / && / -- and negation to nesting depth 1 (2 thorough) under v and iv, legacy brackets with Annex B forms under \"\", i, u, iu, and every string '[' + s (|s| <= 6, 7 thorough) over the class syntax alphabet that parses as one class: /^E$/ and /E/ are matched against every string of length <= 2 over an 18-character universe and compared with CompileToCharSet / CharacterSetMatcher / ClassStrings as transcribed from the specification; plus ~6,000 classes of one or two items over the UTF-8 / UTF-16 encoding-length boundary points against every boundary neighbour.", "4 C12"),
 })
